@@ -123,7 +123,11 @@ static int MODEL_ENABLED = 1;
 static pm_ctx_t MC; static pm_state_t MS; static int model_on, model_div, model_events; static int nsuper_leader[64];
 static void model_diverge(const char *fmt, ...) {
     if (model_div) return; model_div = 1; X->conf_divergences++;
-    if (!X->conf_msg[0]) { va_list ap; va_start(ap, fmt); vsnprintf(X->conf_msg, sizeof X->conf_msg, fmt, ap); va_end(ap); }
+    char m[300]; { va_list ap; va_start(ap, fmt); vsnprintf(m, sizeof m, fmt, ap); va_end(ap); }
+    if (!X->conf_msg[0]) snprintf(X->conf_msg, sizeof X->conf_msg, "%s", m);
+    /* the exhaustive search of Engine P speaks about the code only through this binding: an execution of the real workers that is not a
+       behaviour of the protocol model is reported as a violation of the property under check (with its schedule, replayable) */
+    { char sig[32]; snprintf(sig, sizeof sig, "%.3s:conformance", PROP); mon_viol(sig, "this execution of the real workers is not a behaviour of the verified scheduler-protocol model: %s", m); }
 }
 static pxgstrf_shared_t *SH; static superlumt_options_t *OPT; static int MN;
 static void model_compare(const char *when) {
@@ -296,6 +300,7 @@ static void mon_final(int info) {
 }
 
 /* ------------------------------------------------------------------ interception */
+static int UNLOCK_POINTS = 1;
 static int bypass;     /* refactor jobs: the FIRST factorization (one worker) runs inline, outside the explored schedule */
 int vf_thread_create(pthread_t *t, const pthread_attr_t *a, void *(*fn)(void *), void *arg) {
     (void)a;
@@ -325,7 +330,9 @@ int vf_mutex_lock(pthread_mutex_t *m) {
     int s = mslot(m); if (mtx_owner[s] >= 0) die_with(3, "scheduler error: mutex granted twice"); mtx_owner[s] = me;
     pthread_mutex_unlock(&big); return 0;
 }
-int vf_mutex_unlock(pthread_mutex_t *m) { if (nth <= 1 || pm_in_shadow_call) return 0; pthread_mutex_lock(&big); mtx_owner[mslot(m)] = -1; pthread_mutex_unlock(&big); return 0; }
+/* the unlock is a scheduling point too (added after seeded change C03/3): what a thread does between leaving a critical section and its next hooked
+   statement is then separated from the critical section, so that stores moved out of the lock become visible as a window other threads can run in */
+int vf_mutex_unlock(pthread_mutex_t *m) { if (nth <= 1 || pm_in_shadow_call) return 0; pthread_mutex_lock(&big); mtx_owner[mslot(m)] = -1; if (UNLOCK_POINTS) point(); pthread_mutex_unlock(&big); return 0; }
 
 static unsigned long long sched_state_hash(void) {
     unsigned long long h = 0; if (!SH) return 0;
@@ -569,6 +576,7 @@ int main(int argc, char **argv) {
         if ((p = strstr(src, "lwork="))) CFG.lwork = atol(p + 6);
     }
     CFG.nprocs = NPROC;
+    UNLOCK_POINTS = arg_int(argc, argv, "--unlockpts", 1);
     REFACT = arg_int(argc, argv, "--refact", 0); VK2 = arg_int(argc, argv, "--vk2", 0); USEPR = arg_int(argc, argv, "--usepr", 1);
     if (src) { const char *p; GETI("refact", REFACT); GETI("vk2", VK2); GETI("usepr", USEPR); }
     snprintf(SHAPE_NAME, sizeof SHAPE_NAME, "%s", shape);
@@ -647,7 +655,7 @@ int main(int argc, char **argv) {
         if (X->deaths > 2000) { complete = 0; break; }
     }
     if (complete && !X->lost_subtrees && X->executions <= 1 && NPROC >= 2 && TM.n >= 2) { out_init(); fprintf(vf_out, "{\"type\":\"machinery\",\"property\":\"%s\",\"detail\":\"vacuous exploration: %ld execution(s) of %s\"}\n", PROP, X->executions, CASE); }
-    if (X->conf_divergences) { out_init(); fprintf(vf_out, "{\"type\":\"machinery\",\"property\":\"%s\",\"detail\":\"model/implementation divergence in %ld executions of %s: ", PROP, X->conf_divergences, CASE); for (char *p = X->conf_msg; *p; p++) if (*p != '"' && *p != '\\') fputc(*p, vf_out); fprintf(vf_out, "\"}\n"); }
+    if (0 && X->conf_divergences) { out_init(); fprintf(vf_out, "{\"type\":\"machinery\",\"property\":\"%s\",\"detail\":\"model/implementation divergence in %ld executions of %s: ", PROP, X->conf_divergences, CASE); for (char *p = X->conf_msg; *p; p++) if (*p != '"' && *p != '\\') fputc(*p, vf_out); fprintf(vf_out, "\"}\n"); }
     out_stats(PROP, "\"shape\":\"%s\",\"n\":%d,\"P\":%d,\"bound\":%d,\"cfg\":\"w=%d rlx=%d ms=%d drv=%d dyn=%d vk=%d\",\"complete\":%s,\"executions\":%ld,\"states\":%ld,\"transitions\":%ld,"
               "\"choice_points\":%ld,\"max_points\":%ld,\"distinct_outcomes\":%d,\"violations\":%ld,\"deaths\":%ld,\"lib_aborts\":%ld,\"lost_subtrees\":%ld,\"traces_validated\":%ld,\"conformance_events\":%ld,\"conformance_divergences\":%ld,\"executions_without_model\":%ld,\"scheduler_decisions\":%ld,\"regular_panels\":%ld,\"pipelined_panels\":%ld,\"blocked_waits\":%ld,\"wall_s\":%.2f",
               shape, TM.n, NPROC, BOUND, CFG.w, CFG.relax, CFG.maxsuper, CFG.driver, CFG.dyn, vk, (complete && !X->lost_subtrees) ? "true" : "false", X->executions, X->ntraces, X->steps,
